@@ -213,11 +213,17 @@ def run_mode(task):
 # ------------------------------------------------------------------ replay with the real Lua VM
 
 PROBE = '''
+-- what the script can reach is sampled twice: while the chunk is loaded (top level) and inside
+-- validate(); a name counts as present if it was reachable at either moment
+local names = {"io", "os", "package", "debug", "require", "dofile", "loadfile"}
+local at_load = {}
+for _, n in ipairs(names) do
+  if _G[n] ~= nil then at_load[n] = true end
+end
 function validate(ctx, content)
-  local names = {"io", "os", "package", "debug", "require", "dofile", "loadfile"}
   local present = {}
   for _, n in ipairs(names) do
-    if _G[n] ~= nil then present[#present + 1] = n end
+    if _G[n] ~= nil or at_load[n] then present[#present + 1] = n end
   end
   local native = false
   if package ~= nil and package.loadlib ~= nil then
